@@ -1207,16 +1207,29 @@ impl<T: PPGEvaluatorStrategy> PPGEvaluator<T> {
     }
 
     fn process_signals(&mut self, depth: u32) -> Result<(), PPGEvaluatorError> {
-        debug!("");
-        debug!("Process signals, depth {}", depth);
-        let res = self.inner_process_signals(depth);
-        debug!("Leaving process signals, {}", depth);
-        res
+        // one round per iteration. This used to recurse once per round,
+        // and a round only advances the graph by one level or so - a plain chain of 500 jobs
+        // that were all done already was 'too deep'.
+        let mut depth = depth;
+        loop {
+            debug!("");
+            debug!("Process signals, depth {}", depth);
+            let res = self.inner_process_signals(depth);
+            debug!("Leaving process signals, {}", depth);
+            res?;
+            if self.signals.is_empty() {
+                return Ok(());
+            }
+            depth += 1;
+        }
     }
 
     fn inner_process_signals(&mut self, depth: u32) -> Result<(), PPGEvaluatorError> {
-        if depth > 1500 {
-            return Err(PPGEvaluatorError::InternalError("Depth ConsiderJob loop. Either pathological input, or bug. Aborting to avoid stack overflow".to_string()));
+        // no stack involved anymore, but still the safeguard against signals going in circles.
+        // Legitimately, the number of rounds grows with the depth of the graph
+        // (up to ~6 rounds per level, in a chain of validated ephemerals).
+        if depth as usize > 1500 + 32 * self.jobs.len() {
+            return Err(PPGEvaluatorError::InternalError("Depth ConsiderJob loop. Either pathological input, or bug. Aborting to avoid an endless loop".to_string()));
         }
         let mut new_signals = Vec::new();
         let mut ignore_consider_signals = HashSet::new();
@@ -1696,9 +1709,7 @@ impl<T: PPGEvaluatorStrategy> PPGEvaluator<T> {
             }
             //self.signals.extend(new_signals.drain(..));
         }
-        if !self.signals.is_empty() {
-            self.process_signals(depth + 1)?;
-        }
+        // (process_signals loops until there are no more signals)
         Ok(())
     }
 
